@@ -506,6 +506,7 @@ func NewConfig(configFile string) (*Config, error) { // nolint: gocyclo
 
 	// Return default config if config file is not given.
 	if configFile == "" {
+		applyTelemetryEnv(config)
 		return config, nil
 	}
 
@@ -634,6 +635,7 @@ func NewConfig(configFile string) (*Config, error) { // nolint: gocyclo
 		return nil, err
 	}
 	parseTelemetryConfig(config, v)
+	applyTelemetryEnv(config)
 
 	// If SegmentMaxAge is not set, default it to the retention time.
 	if config.Streams.SegmentMaxAge == 0 {
@@ -884,6 +886,19 @@ func parseTelemetryConfig(config *Config, v *viper.Viper) {
 
 	if v.IsSet(configTelemetryIntervalSeconds) {
 		config.Telemetry.IntervalSeconds = v.GetInt(configTelemetryIntervalSeconds)
+	}
+}
+
+// applyTelemetryEnv applies the documented LIFTBRIDGE_TELEMETRY_ENABLED
+// environment variable, which switches telemetry on or off with or without a
+// configuration file and takes precedence over the file.
+func applyTelemetryEnv(config *Config) {
+	value, ok := os.LookupEnv("LIFTBRIDGE_TELEMETRY_ENABLED")
+	if !ok {
+		return
+	}
+	if enabled, err := strconv.ParseBool(value); err == nil {
+		config.Telemetry.Enabled = enabled
 	}
 }
 
